@@ -53,7 +53,19 @@ META = {
                   "identified with the double it denotes); CPython/numpy float and complex text round trip (section hypotheses rf_pf, rc_pc); "
                   "struct.pack native 'f' = IEEE rounding to binary32 (coordinates beyond the binary32 range become +-inf in STL files); "
                   "stl_reader; RawMeshData.prepare (C02's subject) builds the meshes that are saved; the uv_coords / normals attributes OBJ and xyz "
-                  "imports create (and the IndexError of a dangling vt/vn reference), ply and ASCII STL import are outside the model. A scalar attribute value equal to the type default (-0.0, "
+                  "imports create (and the IndexError of a dangling vt/vn reference) and ply are outside the model. ASCII STL import and the normals / "
+                  "uv_coords columns and statements of the xyz / obj exporters have no Coq model: they are TESTED per run (every attribute an "
+                  "exporter looks up by name - the list is read from the source - in every storage state: dense / sparse, fully / partly / not "
+                  "written, only the last element, wrong arity, integer values; ASCII STL files of an independent writer with one or several "
+                  "solids, named or not, empty solids, blank lines, any indentation, trailing blanks, CRLF, no final line end; judged by the "
+                  "oracle and independent readers) and their loops / continue / break / return skeleton is pinned by the translator "
+                  "(vf/translate/c04_control.json, all codec functions). Variations the readers do NOT support, outside the property because "
+                  "the formats do not define them or a third-party component decides: ASCII STL keywords in upper case (the format spells "
+                  "them in lower case; such lines are ignored), a blank or comment line before the first `solid` and a binary STL whose "
+                  "80-byte header starts with `solid` (the file kind is decided on the first line; stl_reader then refuses or aborts), blank "
+                  "lines inside a .tet file (count-driven, no grammar for them), a wrong-arity attribute under a consulted name (save or load "
+                  "may raise: a refusal, not a loss). OBJ relative indices and Medit inline counts / Dimension 2 ARE covered by the property "
+                  "text and are the known findings above. A scalar attribute value equal to the type default (-0.0, "
                   "0j with signed zeros) reads back as the default.",
 }
 
@@ -1150,6 +1162,16 @@ def variant_files(fmt, mi, rng):
             out.append(("polyline statements", "\n".join(["v " + x for x in vl] + ["l " + " ".join(str(x + 1) for x in ch) for ch in chains]
                                                         + ["f " + " ".join(str(v + 1) for v in f) for f in Fs]) + "\n", want, None))
         if Fs:
+            # vertices and faces interleaved (one group after the other, as exporters of multi-object scenes write them)
+            il, done = ["# interleaved"], 0
+            for f in Fs:
+                while done <= max(f):
+                    il.append("v " + vl[done])
+                    done += 1
+                il.append("f " + " ".join(str(v + 1) for v in f))
+            il += ["v " + x for x in vl[done:]] + ["l %d %d" % (a + 1, b + 1) for a, b in E]
+            out.append(("v and f statements interleaved, trailing blanks", "\n".join(x + "  " for x in il) + "\n", want, None))
+        if Fs:
             n = len(V)
             out.append(("relative (negative) indices", "\n".join(["v " + x for x in vl] + ["f " + " ".join(str(v - n) for v in f) for f in Fs]) + "\n",
                         dict(want, E=[]), "obj/relative-indices"))
@@ -1170,6 +1192,17 @@ def variant_files(fmt, mi, rng):
         if not blocks:
             mid = sections
         out.append(("optional sections, labels, indentation", "\n".join(body + mid + ["", " End"]) + "\n", want, None))
+        if len(blocks) > 1:
+            # the element sections in another order (the format does not fix it); faces / cells come back in file order
+            order = list(range(len(blocks)))
+            rng.shuffle(order)
+            got = {"Edges": [], "F": [], "C": []}
+            for k in order:
+                kw = blocks[k][0].strip()
+                els = [[int(x) - 1 for x in ln.split()[:-1]] for ln in blocks[k][2:]]
+                got["Edges" if kw == "Edges" else "F" if kw in ("Triangles", "Quadrilaterals") else "C"] += els
+            w2 = dict(want, E=got["Edges"], F=got["F"], C=got["C"])
+            out.append(("element sections in another order", "\n".join(body + [x for k in order for x in blocks[k]] + ["End"]) + "\n", w2, None))
         inline = ["MeshVersionFormatted 2", "Dimension 3", "Vertices %d" % len(V)] + [x + " 0" for x in vl]
         for bl in blocks:
             inline += [bl[0].strip() + " " + bl[1].strip()] + [x.strip() for x in bl[2:]]
@@ -1356,8 +1389,41 @@ def reserved_names_used(job):
             if a["name"] in GEO_RESERVED.get(ck, []) or a["name"] in ("GEO::Mesh::facets::facet_ptr", "GEO::Mesh::cells::cell_ptr")]
 
 
+def obj_reader_full(text):
+    """independent reader of the .obj statements v / l / f with the reference forms i, i/t, i//n, i/t/n (positive indices)"""
+    V, E, F = [], [], []
+    for ln in text.split("\n"):
+        w = ln.split("#")[0].split()
+        if not w:
+            continue
+        if w[0] == "v":
+            V.append([f2b(float(x)) for x in w[1:4]])
+        elif w[0] == "f":
+            F.append([int(x.split("/")[0]) - 1 for x in w[1:]])
+        elif w[0] == "l":
+            ids = [int(x.split("/")[0]) - 1 for x in w[1:]]
+            E += [sorted(ids[i:i + 2]) for i in range(len(ids) - 1)]
+    return {"V": V, "E": E, "F": F, "C": []}
+
+
 def oracle_any(job, r):
-    return oracle_stl(job, r) if job["fmt"] == "stl" else oracle_save_load(job["fmt"], job, r)
+    if job["fmt"] == "stl":
+        return oracle_stl(job, r)
+    m = oracle_save_load(job["fmt"], job, r)
+    states = [c[2] for c in job.get("consulted") or []]
+    if m and any("wrong arity" in st or "integer values" in st for st in states) and (m.startswith("save raised") or m.startswith("loading the saved file raised")):
+        return None      # an attribute of the wrong shape under a name the exporter consults: refusing it is not a loss
+    if m or not job.get("consulted"):
+        return m
+    m = oracle_consulted(job, r)
+    if m:
+        return m
+    if job["fmt"] == "obj" and "file" in r and "mesh_in" in r:
+        got = obj_reader_full(r["file"]["text"])
+        want = expected_ref_read("obj", r["mesh_in"], job.get("cfg") or {}, job.get("ignore"))
+        if any(got[k] != want[k] for k in "VEFC"):
+            return "an independent reader of the format finds %s in the file mouette wrote, the mesh has %s" % (json.dumps(got)[:200], json.dumps(want)[:200])
+    return None
 
 
 def classify(job, r, msg):
@@ -1405,6 +1471,135 @@ def shrink_mesh(mesh, fails):
     if cand["V"] != cur["V"] and fails(cand):
         cur = cand
     return cur
+
+
+# ---------------------------------------------------------------------- ASCII STL as independent writers produce it
+def stl_ascii_files(rng, n):
+    """[(label, text, expected content)]: ASCII .stl files (solid / facet normal / outer loop / vertex x3 / endloop / endfacet / endsolid,
+    lower-case keywords as the format defines them) in the layouts CAD exports use: one or several solids, named or not, `endsolid`
+    with or without the name, an empty solid first / in the middle / last, blank lines, indentation by blanks / tabs / none, trailing
+    blanks, CRLF line ends, no final line end, numbers in %e / repr / integer spelling"""
+    out = []
+    for _ in range(n):
+        nsol = rng.choice([1, 2, 2, 3, 4])
+        style = rng.choice(["small", "dyadic", "special", "any"])
+        numfmt = rng.choice([repr, repr, lambda x: "%.17e" % x, lambda x: ("%.17E" % x), lambda x: str(int(x)) if float(x).is_integer() and abs(x) < 1e15 else repr(x)])
+        ind = rng.choice(["  ", "\t", "", "    "])
+        eol = rng.choice(["\n", "\n", "\n", "\r\n"])
+        blank = rng.random() < 0.5
+        trail = rng.choice(["", "", "  ", "\t"])
+        empties = rng.choice(["none", "none", "first", "middle", "last"]) if nsol > 1 else rng.choice(["none", "none", "none", "only"])
+        lines, V, F = [], [], []
+        for k in range(nsol):
+            name = rng.choice(["", "part_%d" % k, "my part %d" % k, "OpenSCAD_Model", "ascii"])
+            empty = (empties == "first" and k == 0) or (empties == "last" and k == nsol - 1) or (empties == "middle" and 0 < k < nsol - 1) or empties == "only"
+            lines.append(("solid " + name).rstrip() + trail)
+            if blank and rng.random() < 0.5:
+                lines.append("")
+            for _t in range(0 if empty else rng.randint(1, 3)):
+                pts = [[rand_float(rng, style) for _ in range(3)] for _ in range(3)]
+                lines.append(ind + "facet normal %s %s %s" % tuple(numfmt(x) for x in (0.0, 0.0, 1.0)) + trail)
+                lines.append(ind * 2 + "outer loop")
+                for p_ in pts:
+                    txt = [numfmt(c) for c in p_]
+                    lines.append(ind * 3 + "vertex " + " ".join(txt) + trail)
+                    V.append([f2b(float(t)) for t in txt])
+                lines.append(ind * 2 + "endloop")
+                lines.append(ind + "endfacet")
+                F.append([len(V) - 3, len(V) - 2, len(V) - 1])
+                if blank and rng.random() < 0.3:
+                    lines.append("")
+            lines.append(("endsolid " + (name if rng.random() < 0.7 else "")).rstrip() + trail)
+            if blank and rng.random() < 0.5:
+                lines.append("   " if rng.random() < 0.3 else "")
+        text = eol.join(lines) + (eol if rng.random() < 0.8 else "")
+        label = "%d solid(s), empty: %s, indentation %r, %s%s" % (nsol, empties, ind, "CRLF, " if eol != "\n" else "", "blank lines" if blank else "no blank line")
+        out.append((label, text, {"V": V, "E": [], "F": F, "C": []}))
+    return out
+
+
+# ---------------------------------------------------------------------- attributes the exporters consult, in every storage state
+# (container, name, type, arity) an exporter looks up by name and writes as extra columns / statements; cross-checked on every run against
+# the names found in the exporters' source (translator: consulted_attributes)
+CONSULTED = {"xyz": [("V", "normals", "Float", 3)],
+             "obj": [("V", "normals", "Float", 3), ("V", "uv_coords", "Float", 2), ("FC", "uv_coords", "Float", 2)],
+             # the attribute-carrying format: any attribute (here one per container kind whose size the generator knows), and the one
+             # name the exporter writes as a table of the format (read back under another name: the reserved-name finding)
+             "geogram_ascii": [("V", "w", "Float", 3), ("F", "lab", "Int", 1), ("FC", "cw", "Complex", 2), ("V", "s", "String", 1),
+                               ("FC", "corner_adjacent_facet", "Int", 1)]}
+COVERED_ELSEWHERE = {"hard_edges": "flagged on arbitrary edges by the mesh generator (hard_set), obj and Medit exporters",
+                     "adjacent_cell": "computed by save() for tetrahedral meshes"}
+STATES = ["dense, every element written", "dense, some elements written", "sparse, every element written", "sparse, some elements written",
+          "sparse, nothing written", "sparse, only the last element written", "sparse, wrong arity", "sparse, integer values"]
+
+
+def gen_consulted(rng, fmt, target, state, extra=None):
+    """a save job for `fmt` whose mesh carries the attribute `target` in storage state `state`"""
+    ck, name, ty, ar = target
+    if fmt == "geogram_ascii" and name != "corner_adjacent_facet" and ("wrong arity" in state or "integer" in state):
+        state = "sparse, some elements written"      # any arity / type is a legal user attribute there
+    kind = rng.choice(["cloud", "cloud", "tri"]) if fmt == "xyz" else rng.choice(["tri", "mixed", "quad", "surf+edges", "polygon"] + (["cloud", "polyline"] if ck == "V" else []))
+    m = gen_mesh(rng, kind)
+    while len(m["V"]) < 3:
+        m = gen_mesh(rng, kind)
+    size = len(m["V"]) if ck == "V" else len(m["F"]) if ck == "F" else sum(len(f) for f in m["F"])
+
+    def spec(ck, name, ty, ar, state):
+        a = {"name": name, "type": ty, "arity": ar, "dense": state.startswith("dense"), "vals": []}
+        if state.endswith("wrong arity"):
+            a["arity"] = ar + rng.choice([-1, 1])
+        if state.endswith("integer values"):
+            a["type"] = "Int"
+        if "every element" in state:
+            keys = list(range(size))
+        elif "some elements" in state:
+            keys = sorted(rng.sample(range(size), rng.randint(1, max(1, size - 1)))) if size else []
+            if rng.random() < 0.5 and size > 1:
+                keys = [k for k in keys if k != size - 1] or [0]      # the last element is not written
+        elif "only the last" in state:
+            keys = [size - 1] if size else []
+        elif "nothing" in state:
+            keys = []
+        else:
+            keys = sorted(rng.sample(range(size), rng.randint(1, size))) if size else []
+        a["vals"] = [[k, [f2b(rand_float(rng, rng.choice(["small", "dyadic", "special"]))) if a["type"] == "Float" else gen_aval(rng, a["type"])
+                          for _ in range(a["arity"])]] for k in keys]
+        return a
+    attrs = {ck: [spec(ck, name, ty, ar, state)]}
+    for t2, st2 in extra or []:
+        attrs.setdefault(t2[0], []).append(spec(*t2, st2))
+    m["attrs"] = attrs
+    j = save_job(m, fmt, {})
+    j["consulted"] = [[ck, name, state]] + [[t2[0], t2[1], st2] for t2, st2 in extra or []]
+    return j
+
+
+def attr_dense(mi, ck, name):
+    for a in (mi.get("attrs") or {}).get(ck, []):
+        if a[0] == name:
+            return a
+    return None
+
+
+def oracle_consulted(job, r):
+    """the attribute an exporter consults comes back where the format carries it (xyz normals columns, obj vn / vt statements): a
+    point whose normal was never written has the default normal, it is not a point to leave out"""
+    fmt = job["fmt"]
+    ld = r.get("load") or {}
+    if "raw" not in ld or "mesh_in" not in r:
+        return None
+    mi = r["mesh_in"]
+    if fmt == "xyz":
+        a = attr_dense(mi, "V", "normals")
+        if a is None or a[1] != "Float" or a[2] != 3 or a[3][:1] == ["EXC"]:
+            return None
+        back = {x[0]: x for x in ld["raw"]["attrs"].get("V", [])}.get("normals")
+        if back is None:
+            return None if not mi["V"] else "the normals written in the .xyz file are not read back"
+        dv = dense_from_sparse(back, len(mi["V"]))
+        if [norm_val(v) for v in dv] != [norm_val(v) for v in a[3]]:
+            return "normals differ after save/load: saved %s, loaded %s" % (json.dumps(a[3])[:200], json.dumps(dv)[:200])
+    return None
 
 
 # ---------------------------------------------------------------------- sessions: several saves / loads in one process
@@ -1583,6 +1778,22 @@ def run(ctx):
             jobs.append(save_job(mm, fmt, m.get("cfg") or {}, m.get("ignore")))
         if m["F"] and "faces" not in (m.get("ignore") or []) and not m.get("geo_only") and not m.get("only_fmts"):
             jobs.append(save_job(m, "stl", m.get("cfg") or {}, m.get("ignore")))
+    # every attribute an exporter consults, in every storage state (dense / sparse, fully / partly / not written, wrong arity, other type)
+    for fmt_, targets in CONSULTED.items():
+        for t_ in targets:
+            for st_ in (ctx.rng.sample(STATES[:6], 3) if quick and fmt_ == "geogram_ascii" and t_[1] != "corner_adjacent_facet" else STATES):
+                for _ in range(1 if quick else 4):
+                    jobs.append(gen_consulted(ctx.rng, fmt_, t_, st_))
+        for _ in range(2 if quick else 10):     # several consulted attributes at once
+            if len(targets) > 1:
+                a_, b_ = ctx.rng.sample(targets, 2)
+                if (a_[0], a_[1]) != (b_[0], b_[1]):
+                    jobs.append(gen_consulted(ctx.rng, fmt_, a_, ctx.rng.choice(STATES[:6]), extra=[(b_, ctx.rng.choice(STATES[:6]))]))
+    src_names = tr.consulted_attributes()
+    uncovered = sorted({(f, n) for f, ns in src_names.items() for n in ns
+                        if n not in COVERED_ELSEWHERE and n not in {t[1] for t in CONSULTED.get({"medit.py": "mesh", "geogram_ascii.py": "geogram_ascii"}.get(f, f[:-3]), [])}})
+    ctx.obligation("harness: every attribute name the export functions look up (%s) is exercised in every storage state"
+                   % ", ".join(sorted({n for ns in src_names.values() for n in ns})), "harness", not uncovered, "not exercised: %s" % uncovered)
     # the witnesses of the known findings / _refuted theorems are replayed on every run
     sqv = [[f2b(0.0), f2b(0.0), f2b(0.0)], [f2b(1.0), f2b(0.0), f2b(0.0)], [f2b(1.0), f2b(1.0), f2b(0.0)], [f2b(0.0), f2b(1.0), f2b(0.0)]]
     jobs.append(save_job({"V": sqv, "E": [], "F": [[0, 1, 2, 3]], "C": []}, "stl", {}))
@@ -1642,14 +1853,22 @@ def run(ctx):
                 stl_terms.append("(%s, None, None)" % smesh_term(mi))
             stl_idx.append(idx)
             continue
-        msg = oracle_save_load(fmt, job, r)
+        msg = oracle_any(job, r)
         if msg:
             fails.append((idx, msg))
+        for ck_, nm_, st_ in job.get("consulted") or []:
+            ctx.count("attribute the exporter consults: %s %s.%s %s" % (fmt, ck_, nm_, st_))
         if not mesh_modelled(mi):
             skip("mesh outside the model's input type")
             continue
         sw = sw_term(job.get("cfg") or {}, job.get("ignore"))
         geo = fmt == "geogram_ascii"
+        special = bool(job.get("consulted")) and not geo     # normals / uv_coords: outside the model's print_f (guard of the theorems)
+        odd = any("wrong arity" in c[2] or "integer values" in c[2] for c in job.get("consulted") or [])
+        if geo and any(c[1] in ("corner_adjacent_facet", "adjacent_cell") for c in job.get("consulted") or []):
+            # written as a table of the format, not as a user attribute: outside geo_ok, the guard of the model's print_geo
+            ctx.count("model terms not emitted: attribute name outside geo_ok (written as a table of the format)")
+            continue
         if geo:
             mi = dict(mi, adj=r.get("adj"))
             if any(a[3][:1] == ["EXC"] or any(v[0] == "other" for v in a[3]) for al in (mi.get("attrs") or {}).values() for a in al):
@@ -1664,10 +1883,14 @@ def run(ctx):
             if not printable(r["file"]["text"].replace("\n", " ")):
                 skip("non-ASCII file")
                 continue
-            save_terms.append("(%s, %s, %s, Some %s)" % (FMT_COQ[fmt], sw, mt, lines_term(toks)))
-            save_idx.append(idx)
+            if not special:
+                save_terms.append("(%s, %s, %s, Some %s)" % (FMT_COQ[fmt], sw, mt, lines_term(toks)))
+                save_idx.append(idx)
+            else:
+                ctx.count("model save / round-trip term not emitted: mesh carries normals / uv_coords (guard no_xyz_attrs / no_obj_attrs of the theorems); "
+                          "the file is judged by the oracle, an independent reader and the model's parser")
             ld = r.get("load")
-            if ld is not None:
+            if ld is not None and not (special and odd):
                 ot, ct = obs_raw_term(ld, with_attrs=geo)
                 if ot is not None:
                     load_terms.append("(%s, %s, %s, %s)" % (FMT_COQ[fmt], lines_term(toks), ot, ct))
@@ -1675,10 +1898,12 @@ def run(ctx):
                 else:   # elements that are not integers / values of a foreign type: the importer produced something outside the model
                     skip("loaded data not encodable")
                     fails.append((idx, "the loaded data holds elements that are not integers or values of a foreign type: %s" % json.dumps(ld.get("raw"))[:200]))
-        else:
+        elif not special:
             save_terms.append("(%s, %s, %s, None)" % (FMT_COQ[fmt], sw, mt))
             save_idx.append(idx)
-        if geo and reserved_names_used(job):
+        if special:
+            pass
+        elif geo and reserved_names_used(job):
             ctx.count("model round-trip test not emitted: attribute name outside geo_ok (reserved by the format)")
         else:
             rt_terms.append("(%s, %s, %s)" % (FMT_COQ[fmt], sw, mt))
@@ -1690,7 +1915,7 @@ def run(ctx):
         if fmt not in REF_FORMATS or "mesh_in" not in r or not mesh_modelled(r["mesh_in"]):
             continue
         mi = r["mesh_in"]
-        if "file" in r and printable(r["file"]["text"].replace("\n", " ")):
+        if "file" in r and printable(r["file"]["text"].replace("\n", " ")) and not (fmt == "obj" and job.get("consulted")):
             toks = tokenize(r["file"]["text"], fmt)
             got = ref_read(fmt, toks)
             rr_terms.append("(%s, %s, %s)" % (FMT_COQ[fmt], lines_term(toks), raw_obs_term(got)))
@@ -1726,6 +1951,10 @@ def run(ctx):
              {"V": [sqv[0]], "E": [], "F": [], "C": []}, "mesh/dimension-2")):
         var_jobs.append({"k": "load", "fmt": fmt_, "text": text_})
         var_meta.append((fmt_, label_, want_, kf_))
+    n_var_model = len(var_jobs)
+    for label_, text_, want_ in stl_ascii_files(ctx.rng, 12 if quick else 120):
+        var_jobs.append({"k": "load", "fmt": "stl", "text": text_})
+        var_meta.append(("stl", "ASCII, " + label_, want_, None))
     var_res = run_jobs(var_jobs)
     var_terms = []
     for (fmt, label, want, kf), j2, r2 in zip(var_meta, var_jobs, var_res):
@@ -1734,7 +1963,7 @@ def run(ctx):
         msg = oracle_load(fmt, ld, want)
         if msg:
             fails_load.append((fmt, label, j2, want, msg, kf))
-        if ld is not None and printable(j2["text"].replace("\n", " ").replace("\t", " ")):
+        if fmt != "stl" and ld is not None and printable(j2["text"].replace("\n", " ").replace("\t", " ")):
             ot, ct = obs_raw_term(ld)
             if ot is not None:
                 var_terms.append("(%s, %s, %s, %s)" % (FMT_COQ[fmt], lines_term(tokenize(j2["text"], fmt)), ot, ct))
@@ -1808,6 +2037,8 @@ def run(ctx):
         fmt = job["fmt"]
         if fmt == "stl" or "file" not in r or not printable(r["file"]["text"].replace("\n", " ")):
             continue
+        if job.get("consulted") and fmt != "geogram_ascii":
+            continue      # vt / vn statements and normals columns: an edited copy leaves the model (dangling vt / vn references)
         geo = fmt == "geogram_ascii"
         base = tokenize_geogram(r["file"]["text"]) if geo else tokenize(r["file"]["text"], fmt)
         for _ in range(nvar):
